@@ -641,7 +641,14 @@ pub fn client_conn(env: &CellEnv, conn: &ConnPlan) -> Vec<XferOutcome> {
     };
     let io_before = env.io_now();
     let total: u64 = conn.xfers.iter().map(|x| x.req_size + x.resp_size).sum();
-    let (sw, cw, th) = h2_windows(&mut rng, total);
+    let (mut sw, cw, mut th) = h2_windows(&mut rng, total);
+    let cancel_class = conn.theme == super::CANCEL_REUSE;
+    if cancel_class {
+        // a small stream window that is never reopened for the stream to be cancelled: sozu
+        // cannot relay more than this, the rest of the response stays on the backend connection
+        sw = *rng.pick(&[16_384u32, 32_768, 65_535]);
+        th = sw / 2;
+    }
     let (mut eng, hello) = Engine::new(false, sw, cw, th);
     if std::env::var_os("VH_C01_TRACE").is_some() {
         eng.trace = Some(format!("client conn{} sw={sw} cw={cw} th={th}", conn.idx));
@@ -665,7 +672,16 @@ pub fn client_conn(env: &CellEnv, conn: &ConnPlan) -> Vec<XferOutcome> {
             idx: i,
             id: 1 + 2 * i as u32,
             started: false,
-            start_at: if i == 0 || stagger == 0 { 0 } else { rng.range(0, stagger * i as u64) },
+            // (cancel class: one exchange after the other)
+            start_at: if i == 0 {
+                0
+            } else if cancel_class {
+                u64::MAX
+            } else if stagger == 0 {
+                0
+            } else {
+                rng.range(0, stagger * i as u64)
+            },
             sender: None,
             sent_mark: None,
             ver: Verifier::new(x.resp_msg, x.resp_size),
@@ -736,6 +752,9 @@ pub fn client_conn(env: &CellEnv, conn: &ConnPlan) -> Vec<XferOutcome> {
             staged_bytes += unit.len();
             // (the frame that opens a stream carries HPACK state: it is always sent)
             staged.push_back((unit, if snd.done() { Some(i) } else { None }, st.id, false));
+            if x.cancel_after.is_some() {
+                eng.expect_body(st.id, 0);
+            }
             st.sender = Some(snd);
             st.started = true;
             st.obs.attempted = true;
@@ -833,9 +852,14 @@ pub fn client_conn(env: &CellEnv, conn: &ConnPlan) -> Vec<XferOutcome> {
                             st.obs.from_backend = code == 200 && header_str(&list, "x-msg").is_some_and(|v| v.trim() == x.resp_msg.to_string());
                             st.obs.resp.head_seen = true;
                             st.obs.resp.recv_framing = "h2".into();
-                            if st.obs.from_backend {
+                            if st.obs.from_backend && x.cancel_after.is_none() {
                                 // (padding is flow-controlled too: the margin is in expect_body's user)
                                 eng.expect_body(stream, x.resp_size + x.resp_size / 8);
+                            }
+                            if x.cancel_after == Some(0) && !end {
+                                eng.ctrl.extend(encode_frame(&Frame::rst_stream(stream, h2::ERR_CANCEL)));
+                                st.obs.cancelled = true;
+                                st.finished = true;
                             }
                         } else {
                             st.obs.resp.trailers = Some(list.len());
@@ -852,6 +876,10 @@ pub fn client_conn(env: &CellEnv, conn: &ConnPlan) -> Vec<XferOutcome> {
                     Ev::Data { stream, data, end, .. } => {
                         let Some(&i) = by_id.get(&stream) else { continue };
                         let st = &mut streams[i];
+                        if st.obs.cancelled {
+                            // what was in flight when we cancelled
+                            continue;
+                        }
                         if st.finished {
                             st.obs.garbage_after = Some(format!("DATA frame ({} bytes) on stream {stream} after its END_STREAM", data.len()));
                             continue;
@@ -872,6 +900,10 @@ pub fn client_conn(env: &CellEnv, conn: &ConnPlan) -> Vec<XferOutcome> {
                         }
                         if end {
                             st.obs.resp.ended = true;
+                            st.finished = true;
+                        } else if conn.xfers[i].cancel_after.is_some_and(|k| st.obs.resp.bytes >= k) && st.obs.resp.mismatch.is_none() {
+                            eng.ctrl.extend(encode_frame(&Frame::rst_stream(stream, h2::ERR_CANCEL)));
+                            st.obs.cancelled = true;
                             st.finished = true;
                         }
                     }
